@@ -9,5 +9,5 @@ cp /repo/go.sum harness/go.sum
 (cd harness && go build -tags verif -o ../work/harness .)
 ./work/harness translate /repo lean/RosedVerif/Gen
 python3 tools/ucd/mkref.py
-(cd lean && lake build driver RosedVerif.Model.GenCodeEqA RosedVerif.Props.C01 RosedVerif.Props.C02 RosedVerif.Props.C03 RosedVerif.Props.C04 RosedVerif.Props.C05 RosedVerif.Props.C06 RosedVerif.Props.C07 RosedVerif.Props.C08 RosedVerif.Props.C09 RosedVerif.Props.C10 RosedVerif.Props.C11 RosedVerif.Props.C12 RosedVerif.Props.C13 RosedVerif.Props.C14 RosedVerif.Props.C15 RosedVerif.Props.C16 RosedVerif.Props.C17 RosedVerif.Props.C18 RosedVerif.Props.C19 RosedVerif.Props.C20)
+(cd lean && lake build driver RosedVerif.Model.GenCodeEq RosedVerif.Model.GenCodeEqA RosedVerif.Props.C01 RosedVerif.Props.C02 RosedVerif.Props.C03 RosedVerif.Props.C04 RosedVerif.Props.C05 RosedVerif.Props.C06 RosedVerif.Props.C07 RosedVerif.Props.C08 RosedVerif.Props.C09 RosedVerif.Props.C10 RosedVerif.Props.C11 RosedVerif.Props.C12 RosedVerif.Props.C13 RosedVerif.Props.C14 RosedVerif.Props.C15 RosedVerif.Props.C16 RosedVerif.Props.C17 RosedVerif.Props.C18 RosedVerif.Props.C19 RosedVerif.Props.C20)
 echo setup-ok
